@@ -4,7 +4,7 @@
      never_early, exactly_once (at most once, counted in the trace; nothing lost at quiescence),
      unlinked_after_completion, order (sorted queue, FIFO among equal due times, the timer thread
      always takes the head), cancel_prompt, no_lost_wakeup. *)
-From Coq Require Import ZArith List Bool Arith Lia Permutation.
+From Coq Require Import ZArith List Bool Arith Lia Permutation Sorted.
 From V Require Import Base.Sched Arith.SortedInsertDefs Arith.SortedInsertProofs Proto.TimerQueueDefs.
 Import ListNotations.
 Import TimerQueue.
@@ -926,4 +926,231 @@ Proof.
     try (destruct (nth_error (ops s) i) as [o|]; [|discriminate]);
     try (destruct (slock o); try discriminate); try (destruct (cb o); try discriminate);
     inversion H; subst; clear H; try (left; reflexivity); apply (Hd (set_m s true)).
+Qed.
+(* ------------------------------------------------------------------------------------------- *)
+(* FIFO among equal due times                                                                   *)
+
+Definition seqof (os : list op) (i : nat) : nat :=
+  match nth_error os i with Some o => eseq o | None => 0%nat end.
+
+(* queue order: by due time, ties by the sequence number of the enqueue *)
+Definition lexlt (os : list op) (x y : timer) : Prop :=
+  due x < due y \/ (due x = due y /\ (seqof os (id x) < seqof os (id y))%nat).
+
+Definition FInv (s : st) : Prop :=
+  StronglySorted (lexlt (ops s)) (q s) /\ Forall (fun x => (seqof (ops s) (id x) < nenq s)%nat) (q s).
+
+Lemma seqof_put_same : forall os i o o' j,
+  nth_error os i = Some o -> eseq o' = eseq o -> seqof (set_nth i o' os) j = seqof os j.
+Proof.
+  intros os i o o' j Hn He. unfold seqof. destruct (Nat.eq_dec i j) as [E|E].
+  - subst j. rewrite (nth_set_nth_eq _ _ _ _ Hn), Hn. exact He.
+  - rewrite nth_set_nth_neq by exact E. reflexivity.
+Qed.
+
+Lemma seqof_put_other : forall os i o' j, i <> j -> seqof (set_nth i o' os) j = seqof os j.
+Proof. intros. unfold seqof. rewrite nth_set_nth_neq by assumption. reflexivity. Qed.
+
+Lemma seqof_put_eq : forall os i o o', nth_error os i = Some o -> seqof (set_nth i o' os) i = eseq o'.
+Proof. intros. unfold seqof. rewrite (nth_set_nth_eq _ _ _ _ H). reflexivity. Qed.
+
+(* how a step changes the queue and the sequence numbers *)
+Definition qeff (s s' : st) : Prop :=
+  (q s' = q s /\ nenq s' = nenq s /\ forall j, seqof (ops s') j = seqof (ops s) j) \/
+  (exists i d, q s' = insert_timed (d, i) (q s) /\ nenq s' = S (nenq s) /\ seqof (ops s') i = nenq s /\
+               (forall j, j <> i -> seqof (ops s') j = seqof (ops s) j) /\
+               exists o, nth_error (ops s) i = Some o /\ (sholds o = true \/ cholds o = true)) \/
+  (exists i, q s' = heap_remove i (q s) /\ nenq s' = nenq s /\ forall j, seqof (ops s') j = seqof (ops s) j) \/
+  (exists x, q s = x :: q s' /\ nenq s' = nenq s /\ forall j, seqof (ops s') j = seqof (ops s) j).
+
+Ltac q_same Hn := left; split; [reflexivity|]; split; [reflexivity|]; intros; cbn; first [reflexivity | eapply seqof_put_same; [exact Hn | reflexivity]].
+
+Lemma decide_qeff : forall s s0, q s0 = q s -> nenq s0 = nenq s -> ops s0 = ops s -> qeff s (decide s0).
+Proof.
+  intros s s0 Eq En Eo. unfold decide. destruct (stopflag s0).
+  { left. cbn. rewrite Eq, En, Eo. auto. }
+  destruct (q s0) as [|x tl] eqn:E.
+  { left. cbn. rewrite <- Eq, En, Eo, E. auto. }
+  destruct (due x <=? now s0).
+  - right. right. right. exists x. cbn. rewrite <- Eq, En, Eo. auto.
+  - left. cbn. rewrite <- Eq, En, Eo, E. auto.
+Qed.
+
+Lemma cb_qeff : forall fin i o s s' evs, nth_error (ops s) i = Some o ->
+  (forall o', eseq (fin o') = eseq o') ->
+  step_cb fin i o s = Some (s', evs) -> qeff s s'.
+Proof.
+  intros fin i o s s' evs Hn Hfin H. unfold step_cb in H.
+  destruct (cpc o) eqn:Hc; try discriminate.
+  - destruct (mlocked s); [discriminate|]. destruct (now s <? dueT o); [destruct (linkedb i (q s))|];
+      inversion H; subst; clear H; try (q_same Hn).
+    right. right. left. exists i. split; [reflexivity|]. split; [reflexivity|]. intros. cbn. eapply seqof_put_same; [exact Hn | reflexivity].
+  - inversion H; subst; clear H; q_same Hn.
+  - destruct (mlocked s); [discriminate|]. inversion H; subst; clear H.
+    right. left. exists i, (dueT o). cbn. split; [reflexivity|]. split; [reflexivity|]. split; [|split].
+    + rewrite (seqof_put_eq _ _ _ _ Hn). destruct (at_head _ _); reflexivity.
+    + intros j Hj. apply seqof_put_other. congruence.
+    + exists o. split; [exact Hn|]. right. unfold cholds. rewrite Hc. reflexivity.
+  - inversion H; subst; clear H; q_same Hn.
+  - inversion H; subst; clear H. left. split; [reflexivity|]. split; [reflexivity|]. intros. cbn.
+    eapply seqof_put_same; [exact Hn | rewrite Hfin; reflexivity].
+  - inversion H; subst; clear H. left. split; [reflexivity|]. split; [reflexivity|]. intros. cbn.
+    eapply seqof_put_same; [exact Hn | rewrite Hfin; reflexivity].
+Qed.
+
+Lemma step_qeff : forall s t s' evs, step t s = Some (s', evs) -> qeff s s'.
+Proof.
+  intros s t s' evs H. unfold step in H.
+  destruct (Nat.eqb t 0).
+  { unfold step_timer, with_op in H. destruct (tpc s) as [ |dl|dl ntf|i|i|i w|i|i| | ] eqn:Et.
+    - destruct (mlocked s); [discriminate|]. inversion H; subst; clear H. apply decide_qeff; reflexivity.
+    - inversion H; subst; clear H. left. cbn. auto.
+    - destruct (mlocked s); [discriminate|]. destruct (_ || _); [|discriminate]. inversion H; subst; clear H. apply decide_qeff; reflexivity.
+    - destruct (nth_error (ops s) i) as [o|] eqn:Hn; [|discriminate]. inversion H; subst; clear H. left. cbn. auto.
+    - destruct (nth_error (ops s) i) as [o|] eqn:Hn; [|discriminate]. destruct (slock o); [discriminate|].
+      destruct (cb o); inversion H; subst; clear H; q_same Hn.
+    - destruct (nth_error (ops s) i) as [o|] eqn:Hn; [|discriminate]. inversion H; subst; clear H; q_same Hn.
+    - destruct (nth_error (ops s) i) as [o|] eqn:Hn; [|discriminate]. destruct (cb o); try discriminate.
+      inversion H; subst; clear H; q_same Hn.
+    - destruct (nth_error (ops s) i) as [o|] eqn:Hn; [|discriminate]. inversion H; subst; clear H; q_same Hn.
+    - inversion H; subst; clear H. left. cbn. auto.
+    - discriminate. }
+  destruct (Nat.leb t (nops s)).
+  { unfold step_starter in H. remember (t - 1)%nat as i. clear Heqi.
+    destruct (nth_error (ops s) i) as [o|] eqn:Hn; [|discriminate].
+    destruct (spc o) eqn:Hs.
+    - inversion H; subst; clear H; q_same Hn.
+    - destruct (sreq o); [|destruct (slock o); [discriminate|]]; inversion H; subst; clear H; q_same Hn.
+    - inversion H; subst; clear H; q_same Hn.
+    - eapply (cb_qeff _ i o s s' evs Hn); [|exact H]. reflexivity.
+    - destruct (mlocked s); [discriminate|]. inversion H; subst; clear H.
+      right. left. exists i, (dueT o). cbn. split; [reflexivity|]. split; [reflexivity|]. split; [|split].
+      + rewrite (seqof_put_eq _ _ _ _ Hn). destruct (at_head _ _); reflexivity.
+      + intros j Hj. apply seqof_put_other. congruence.
+      + exists o. split; [exact Hn|]. left. unfold sholds. rewrite Hs. reflexivity.
+    - inversion H; subst; clear H; q_same Hn.
+    - inversion H; subst; clear H; q_same Hn.
+    - discriminate. }
+  destruct (Nat.leb t (2 * nops s)).
+  { unfold step_stopper in H. remember (t - 1 - nops s)%nat as i. clear Heqi.
+    destruct (nth_error (ops s) i) as [o|] eqn:Hn; [|discriminate].
+    destruct (kpc o) eqn:Hk.
+    - destruct (sreq o); [|destruct (slock o); [discriminate|]; destruct (cb o)]; inversion H; subst; clear H; q_same Hn.
+    - inversion H; subst; clear H; q_same Hn.
+    - eapply (cb_qeff _ i o s s' evs Hn); [|exact H]. reflexivity.
+    - inversion H; subst; clear H; q_same Hn.
+    - destruct (slock o); [discriminate|]. inversion H; subst; clear H; q_same Hn.
+    - inversion H; subst; clear H; q_same Hn.
+    - discriminate. }
+  destruct (Nat.eqb t (2 * nops s + 1)).
+  { unfold step_destroyer in H. destruct (dpc s).
+    - destruct (mlocked s); [discriminate|]. destruct (all_completed s); [|discriminate]. inversion H; subst; clear H. left. cbn. auto.
+    - inversion H; subst; clear H. left. cbn. auto.
+    - inversion H; subst; clear H. left. cbn. auto.
+    - destruct (tpc s); try discriminate. inversion H; subst; clear H. left. cbn. auto.
+    - discriminate. }
+  destruct (Nat.eqb t (2 * nops s + 2)).
+  { unfold step_poke in H. inversion H; subst; clear H. left. cbn. auto. }
+  unfold step_clock in H. inversion H; subst; clear H. left. cbn. auto.
+Qed.
+
+Lemma SS_ext {A} : forall (R R' : A -> A -> Prop) l,
+  StronglySorted R l -> (forall x y, In x l -> In y l -> R x y -> R' x y) -> StronglySorted R' l.
+Proof.
+  intros R R' l H. induction H as [|a l Hs IH Hf]; intros Hx; constructor.
+  - apply IH. intros x y Hi Hj. apply Hx; right; assumption.
+  - rewrite Forall_forall in *. intros y Hy. apply Hx; [left; reflexivity | right; exact Hy | apply Hf, Hy].
+Qed.
+
+Lemma SS_insert {A} : forall (R : A -> A -> Prop) l1 l2 z,
+  StronglySorted R (l1 ++ l2) -> Forall (fun a => R a z) l1 -> Forall (R z) l2 ->
+  StronglySorted R (l1 ++ z :: l2).
+Proof.
+  intros R l1. induction l1 as [|a l1 IH]; intros l2 z H F1 F2; cbn [app] in *.
+  - constructor; assumption.
+  - inversion H as [|a' l' Hs Hf]; subst. inversion F1; subst. constructor.
+    + apply IH; assumption.
+    + rewrite Forall_forall in *. intros y Hy. apply in_app_or in Hy. destruct Hy as [Hy|[<-|Hy]].
+      * apply Hf. apply in_or_app. left. exact Hy.
+      * assumption.
+      * apply Hf. apply in_or_app. right. exact Hy.
+Qed.
+
+Lemma SS_remove : forall (R : timer -> timer -> Prop) i l,
+  StronglySorted R l -> StronglySorted R (heap_remove i l).
+Proof.
+  intros R i l H. induction H as [|a l Hs IH Hf]; cbn [heap_remove]; [constructor|].
+  destruct (Nat.eqb (id a) i); [exact Hs|]. constructor; [exact IH|]. apply heap_remove_Forall. exact Hf.
+Qed.
+
+Lemma SS_before {A} : forall (R : A -> A -> Prop) l1 x l2 y l3,
+  StronglySorted R (l1 ++ x :: l2 ++ y :: l3) -> R x y.
+Proof.
+  intros R l1. induction l1 as [|a l1 IH]; intros x l2 y l3 H; cbn [app] in H.
+  - inversion H as [|a' l' Hs Hf]; subst. rewrite Forall_forall in Hf. apply Hf. apply in_or_app. right. left. reflexivity.
+  - inversion H; subst. eapply IH; eauto.
+Qed.
+
+Lemma finv_step : forall s t s' evs, Inv s -> FInv s -> step t s = Some (s', evs) -> FInv s'.
+Proof.
+  intros s t s' evs HI [Hss Hlt] H. pose proof HI as [[Hs [Hnd Hq]] Ho].
+  destruct (step_qeff _ _ _ _ H) as [[Eq [En Es]] | [[i [d [Eq [En [Ei [Es [o [Hn Hh]]]]]]]] | [[i [Eq [En Es]]] | [x [Eq [En Es]]]]]].
+  - split; rewrite Eq, ?En.
+    + eapply SS_ext; [exact Hss|]. intros x y _ _ [Hl|[He Hl]]; [left; exact Hl | right; rewrite !Es; auto].
+    + eapply Forall_impl; [|exact Hlt]. intros x Hx. cbn in *. rewrite Es. exact Hx.
+  - (* insertion of i, which is not in the queue *)
+    assert (Hni : ~ In i (map id (q s))).
+    { apply cnt_zero_notin. pose proof (oi_hold _ _ _ _ _ (Ho i o Hn)) as Hc.
+      destruct Hh as [Hh|Hh]; rewrite Hh in Hc; destruct (started o); cbn in Hc; lia. }
+    assert (Hold : forall x, In x (q s) -> seqof (ops s') (id x) = seqof (ops s) (id x)).
+    { intros x Hx. apply Es. intros E. apply Hni. rewrite <- E. apply in_map. exact Hx. }
+    destruct (insert_timed_split (d, i) (q s) Hs) as [l1 [l2 [E1 [E2 [F1 F2]]]]].
+    split; rewrite Eq, ?En, E2.
+    + apply SS_insert.
+      * rewrite <- E1. eapply SS_ext; [exact Hss|]. intros x y Hx Hy [Hl|[He Hl]]; [left; exact Hl | right; rewrite !Hold; auto].
+      * rewrite Forall_forall in *. intros a Ha. specialize (F1 a Ha). cbn in F1.
+        assert (Hin : In a (q s)) by (rewrite E1; apply in_or_app; left; exact Ha).
+        destruct (Z.eq_dec (due a) d) as [E|E]; [right | left; cbn; lia].
+        split; [exact E|]. cbn. rewrite Ei, Hold by exact Hin. apply (Hlt a Hin).
+      * rewrite Forall_forall in *. intros b Hb. left. apply (F2 b Hb).
+    + rewrite <- E2. apply Forall_forall. intros x Hx. apply insert_timed_In in Hx. destruct Hx as [-> | Hx].
+      * cbn. rewrite Ei. lia.
+      * rewrite Hold by exact Hx. rewrite Forall_forall in Hlt. specialize (Hlt x Hx). lia.
+  - split; rewrite Eq, ?En.
+    + apply SS_remove. eapply SS_ext; [exact Hss|]. intros x y _ _ [Hl|[He Hl]]; [left; exact Hl | right; rewrite !Es; auto].
+    + apply heap_remove_Forall. eapply Forall_impl; [|exact Hlt]. intros x Hx. cbn in *. rewrite Es. exact Hx.
+  - rewrite Eq in Hss, Hlt. inversion Hss; subst. inversion Hlt; subst. split; rewrite ?En.
+    + eapply SS_ext; [eassumption|]. intros a b _ _ [Hl|[He Hl]]; [left; exact Hl | right; rewrite !Es; auto].
+    + eapply Forall_impl; [|eassumption]. intros a Ha. cbn in *. rewrite Es. exact Ha.
+Qed.
+
+Lemma finv_run : forall now0 specs sched, FInv (fst (run step sched (init now0 specs, []))).
+Proof.
+  intros now0 specs sched.
+  enough (H : Inv (fst (run step sched (init now0 specs, []))) /\ FInv (fst (run step sched (init now0 specs, [])))) by tauto.
+  apply (run_invariant_state _ _ _ step (fun s => Inv s /\ FInv s)).
+  - intros s t s' ev [HI HF] Hs. split; [eapply step_inv; eauto | eapply finv_step; eauto].
+  - split; [apply init_inv|]. split; constructor.
+Qed.
+
+(* ties are queued in enqueue order: of two queued operations with equal due times the one whose
+   (last) enqueue came first is nearer to the head; together with queue_sorted and timer_takes_head:
+   the timer thread completes operations in non-decreasing due-time order, ties in submission order *)
+Theorem fifo_ties : forall now0 specs sched l1 x l2 y l3,
+  let s := fst (run step sched (init now0 specs, [])) in
+  q s = l1 ++ x :: l2 ++ y :: l3 -> due x = due y ->
+  (seqof (ops s) (id x) < seqof (ops s) (id y))%nat.
+Proof.
+  intros now0 specs sched l1 x l2 y l3 s Eq Hd. destruct (finv_run now0 specs sched) as [Hss _]. fold s in Hss.
+  rewrite Eq in Hss. destruct (SS_before _ _ _ _ _ _ Hss) as [Hl|[_ Hl]]; [lia | exact Hl].
+Qed.
+
+(* sequence numbers are handed out in increasing order by the enqueues *)
+Theorem enqueue_numbers : forall s t s' evs,
+  step t s = Some (s', evs) ->
+  nenq s' = nenq s \/ (nenq s' = S (nenq s) /\ exists i d, q s' = insert_timed (d, i) (q s) /\ seqof (ops s') i = nenq s).
+Proof.
+  intros s t s' evs H.
+  destruct (step_qeff _ _ _ _ H) as [[Eq [En Es]] | [[i [d [Eq [En [Ei _]]]]] | [[i [Eq [En Es]]] | [x [Eq [En Es]]]]]]; auto.
+  right. split; [exact En|]. exists i, d. auto.
 Qed.
